@@ -55,6 +55,10 @@ CHANGE = {
     "C14-7": ("TBB alignedMalloc fast path: scalable_malloc(size) when size is a multiple of the alignment", "TBB configuration, alignment >= 128, size > 1024 and a multiple of the alignment"),
     "C01-7": ("enkiTS SplitAndAddTask pipe-full fallback drops the chunk it could not queue", "internal back end, caller's 256-slot pipe full: >= ~46 threads and nested parallel_for"),
     "C03-6": ("AsyncLoop loop thread: the re-check after publishing insideLoopBody tests threadShouldBeAlive instead of shouldBeRunning", "stop() runs completely between the loop thread's running-flag check and its insideLoopBody store (point A)"),
+    "C02-8": ("AsyncTask::get() returns std::move(retValue): a second get() yields a moved-from value", "heap-owning result type and get() called twice"),
+    "C05-8": ("touchingOrOverlapping() as a corner-containment test (sufficient only): plus-shaped crossings and anti-diagonal overlaps report false", "boxes whose extents differ per axis, no corner of one inside the other"),
+    "C15-8": ("FixedBufferWriter::reserve moves the cursor before the capacity check: a rejected reservation leaves the cursor past the end; cursor+size may wrap", "over-capacity reserve, exception caught, writer used again"),
+    "C18-8": ("ArgumentsParser::parseAndRemove increments the index after a removal as well: the argument shifted into the slot is never offered", "two consumable arguments/groups directly adjacent"),
     "C20-2": ("writePFM<vec3fa> walks the pixels with a stride of 3 floats instead of 4", "vec3fa images wider than one pixel"),
 }
 
